@@ -531,6 +531,7 @@ func writeEvidence(id, tier string, seed int, out *runOutput, cfg *PropConfig, w
 		"sequential semantics per function; other goroutines interfere only at lock acquisition / calls without contract (heap havoc)",
 		"data-race freedom and sequentially consistent atomics (Go memory model)",
 		"integers are modelled exactly (two's-complement wrap-around), not as mathematical integers, except values of spec type Z",
+		"no string or slice is longer than 2^48 elements (runtime.maxAlloc on 64-bit platforms); allocation failure is not modelled",
 	)
 	if cfg.Note != "" {
 		ev.Assump = append(ev.Assump, "scope: "+cfg.Note)
